@@ -18,6 +18,10 @@ import Skc.Tie.rank_values
 import Skc.Tie.electre1_outrank
 import Skc.Tie.electre1_kernel
 import Skc.Tie.fmf
+import Skc.Tie.weights_outrank
+import Skc.Tie.electre2_wor
+import Skc.Tie.electre2_strong
+import Skc.Tie.electre2_weak
 import Skc.Props.C03
 import Skc.Props.C04
 import Skc.Props.C06
@@ -134,7 +138,32 @@ theorem rank_values_reverse (v : Vec n α) (i j : Nat) (hi : i < (List.ofFn v).l
       (List.ofFn v)[j] < (List.ofFn v)[i] := by
   have h := C03.rankValues_reverse_lt_iff (List.ofFn v) i j hi hj
   simpa only [tie_rank_values] using h
+/-! ### ELECTRE2: the weight comparison as specified and as called (known finding K1), the two relations -/
+
+/-- `weights_outrank` called as documented is the specified relation … -/
+theorem weights_outrank_spec (A : Mat m n α) (o : Vec n Obj) (w : Vec n α) (a b : Fin m) :
+    (Gen.weights_outrank ⟨A⟩ ⟨w⟩ (objs o)).v a b = Electre.worSpec A o w a b := by
+  unfold objs; exact tie_weights_outrank A o w a b
+/-- … but `electre2` calls it with the two arrays exchanged -/
+theorem electre2_wor_as_called (A : Mat m n α) (o : Vec n Obj) (w : Vec n α) (p0 p1 p2 q0 q1 : α) (a b : Fin m) :
+    (Gen.electre2_wor ⟨A⟩ (objs o) ⟨w⟩ ⟨p0⟩ ⟨p1⟩ ⟨p2⟩ ⟨q0⟩ ⟨q1⟩).v a b = Electre.worCode A o w a b := by
+  unfold objs; exact tie_electre2_wor A o w p0 p1 p2 q0 q1 a b
+/-- C08: the strong relation of today's `electre2` -/
+theorem electre2_strong_iff (A : Mat m n α) (o : Vec n Obj) (w : Vec n α) (t : Electre.Thresholds α) (a b : Fin m) (c d : α)
+    (hc : Electre.concordance A o w a b = some c) (hd : Electre.discordance A o a b = some d) :
+    (Gen.electre2_strong ⟨A⟩ (objs o) ⟨w⟩ ⟨t.p0⟩ ⟨t.p1⟩ ⟨t.p2⟩ ⟨t.q0⟩ ⟨t.q1⟩).v a b = true ↔
+      Electre.worCode A o w a b = true ∧ ((t.p0 ≤ c ∧ d ≤ t.q0) ∨ (t.p1 ≤ c ∧ d ≤ t.q1)) := by
+  unfold objs; rw [tie_electre2_strong, hc, hd]; exact C08.strong_iff c d _ t
+/-- C08: the weak relation -/
+theorem electre2_weak_iff (A : Mat m n α) (o : Vec n Obj) (w : Vec n α) (t : Electre.Thresholds α) (a b : Fin m) (c d : α)
+    (hc : Electre.concordance A o w a b = some c) (hd : Electre.discordance A o a b = some d) :
+    (Gen.electre2_weak ⟨A⟩ (objs o) ⟨w⟩ ⟨t.p0⟩ ⟨t.p1⟩ ⟨t.p2⟩ ⟨t.q0⟩ ⟨t.q1⟩).v a b = true ↔
+      Electre.worCode A o w a b = true ∧ t.p2 ≤ c ∧ d ≤ t.q0 := by
+  unfold objs; rw [tie_electre2_weak, hc, hd]; exact C08.weak_iff c d _ t
 end field
+
+/-! (`C08.worCode_ne_worSpec` exhibits a problem on which the two relations differ: with the two theorems above that is the known
+finding K1 stated about today's source.) -/
 
 /-! ### over `ℝ` (kernels with `sqrt` / `log`) -/
 
